@@ -6,8 +6,14 @@
     connect_prog) one item at a time, so any other thread may run between two sections - exactly
     the freedom the Go scheduler has, since the mutex is released between the sections.
 
-    Addresses "ip:port" are pairs (ip, port) of numbers (the driver maps them to strings);
-    peer ids are numbers (PeerId.ToUint64). Sets (strset) are duplicate-free lists.
+    Addresses are pairs (ip, port) of numbers: [ip] stands for the host text exactly as
+    common.ParseIPAddr (net.SplitHostPort) yields it - the key of the per-IP count - and the
+    driver maps every number to one host text (IPv4, IPv6, IPv4-mapped IPv6, texts that are
+    prefixes of one another). By convention numbers >= 100 are hosts containing ':' (IPv6): their
+    "ip:port" text is bracketed ([h]:p), while isHandWithSelf and RemoteListenAddress build
+    h + ":" + p WITHOUT brackets, so the own address and the inbound listen addresses of such
+    hosts never equal a connection address (host_has_colon below).
+    Peer ids are numbers (PeerId.ToUint64). Sets (strset) are duplicate-free lists.
     Not modelled: host names (the address checked before the dial and the address recorded after
     it are the same pair), malformed addresses, data races inside a section.
 
@@ -81,9 +87,13 @@ Definition set_fatal (c : ctrl) : ctrl :=
 
 (** * The sections *)
 
-(** hasBoundAddr *)
+(** the host text contains ':' (IPv6): net.JoinHostPort / RemoteAddr().String() bracket it *)
+Definition host_has_colon (ip : N) : bool := 100 <=? ip.
+
+(** hasBoundAddr. inboundListenAddress holds host + ":" + port (RemoteListenAddress, no
+    brackets), so an address with a bracketed host is never found there. *)
 Definition has_bound_addr (c : ctrl) (a : addr) : bool :=
-  amem a (c_in c) || amem a (c_out c) || amem a (c_listen c).
+  amem a (c_in c) || amem a (c_out c) || (amem a (c_listen c) && negb (host_has_colon (fst a))).
 
 (** boundsCount *)
 Definition bounds_count (c : ctrl) (d : dir) : N := N.of_nat (length (bound c d)).
@@ -163,7 +173,7 @@ Definition exec_op (recheck : bool) (cf : cfg) (c : ctrl) (t : thread) (o : op)
   | OpReserved => (c, if t_reserved t then None else Some ENotReserved, None)
   | OpHasBound => (c, if has_bound_addr c a then Some EAlreadyBound else None, None)
   | OpOwn => (c, match c_own c with
-                 | Some o' => if addr_eqb o' a then Some ESelfAddr else None
+                 | Some o' => if addr_eqb o' a && negb (host_has_colon (fst a)) then Some ESelfAddr else None
                  | None => None end, None)
   | OpFull => (c, if is_bound_full cf c (t_dir t) then Some EBoundFull else None, None)
   | OpIpCount => (c, if ip_full_cmp (inbound_count_with_ip c (fst a)) (max_per_ip cf)
